@@ -8,6 +8,7 @@ import Liftbridge.Driver.Crc
 import Liftbridge.Model.Envelope
 import Liftbridge.Driver.LogDrv
 import Liftbridge.Driver.TelemetryDrv
+import Liftbridge.Driver.AuthzDrv
 
 namespace Liftbridge.Driver
 open Liftbridge
@@ -48,6 +49,7 @@ def step (st : St) (line : String) : St × String :=
   match (line.splitOn " ").filter (· ≠ "") with
   | "c14" :: rest => (st, c14 rest)
   | "c19" :: rest => (st, c19 rest)
+  | "c15" :: rest => (st, c15Step rest)
   | "log" :: rest => let (l, out) := logStep st.log rest; ({ st with log := l }, out)
   | _ => (st, "bad-op")
 
